@@ -153,6 +153,7 @@ type Interp struct {
 	nextID int
 	globals map[string]Val
 	Sched  *glSched
+	timeouts int
 }
 
 func NewInterp(m *engine.Machine, p *Program) *Interp {
